@@ -543,6 +543,33 @@ func (s *segment) findEntryByTimestamp(timestamp int64) (*entry, error) {
 	return entry, err
 }
 
+// findLatestEntryByTimestamp returns the last entry whose timestamp is less
+// than or equal to the given timestamp.
+func (s *segment) findLatestEntryByTimestamp(timestamp int64) (*entry, error) {
+	s.RLock()
+	defer s.RUnlock()
+	var (
+		entry = &entry{}
+		n     = int(s.Index.CountEntries())
+		err   error
+	)
+	idx := sort.Search(n, func(i int) bool {
+		if e := s.Index.ReadEntryAtLogOffset(entry, int64(i)); e != nil {
+			err = e
+			return true
+		}
+		return entry.Timestamp > timestamp
+	})
+	if err != nil {
+		return nil, err
+	}
+	if idx == 0 {
+		return nil, ErrEntryNotFound
+	}
+	err = s.Index.ReadEntryAtLogOffset(entry, int64(idx-1))
+	return entry, err
+}
+
 // Delete closes the segment and then deletes its log and index files.
 func (s *segment) Delete() error {
 	if err := s.Close(); err != nil {
